@@ -826,8 +826,7 @@ impl Run {
         let lock = generate_lock_slot(key);
         let tag = get_hash_tag(key).to_vec();
         let op = format!("crc {}", hex(key));
-        // the driver prints the bit-serial and the table-driven XMODEM value
-        let observed = format!("{} {} {} {} {} {}", x, arc, slot, lock, hex(&tag), x);
+        let observed = format!("{} {} {} {} {}", x, arc, slot, lock, hex(&tag));
         if slot != ref_slot(key) || slot >= SLOT_NUM || tag != ref_hash_tag(key) || x != ref_crc16(key) {
             let c = self.s.cases;
             self.s.stats.oracle_failure(c, "generate_slot / get_hash_tag / crc16 differ from the Redis Cluster reference", "", vec![op.clone()]);
@@ -988,7 +987,7 @@ fn main() {
             run.do_sameslot(&ks);
         }
         // --- B: SlotMapData directly, raw ranges ------------------------------------------------
-        for _ in 0..(if thorough { 300 } else { 30 }) {
+        for _ in 0..(if thorough { 1000 } else { 30 }) {
             run.new_case();
             let n = rng.range(0, 5) as usize;
             let mut nodes: Vec<(String, Ranges)> = vec![];
@@ -1013,8 +1012,8 @@ fn main() {
             run.do_slotmap(&nodes, &qs);
         }
         // --- C: the proxy: configurations × layouts × commands -----------------------------------
-        let n_cases = if thorough { 2000 } else { 150 };
-        let per_case = if thorough { 120 } else { 60 };
+        let n_cases = if thorough { 6000 } else { 150 };
+        let per_case = if thorough { 150 } else { 60 };
         for _ in 0..n_cases {
             run.new_case();
             let cfg = gen.cfg(&mut run.s.stats);
